@@ -260,6 +260,7 @@ func (ds *AnySource) Stop() error {
 		panic("Called Stop on a Starting source; how to handle this??")
 
 	case Active:
+		verifPoint("stop.onActive")
 		log.Println("AnySource.Stop() was called to stop an active source")
 		// This is the normal case: Stop on an Active source
 
